@@ -6,9 +6,9 @@ import (
 	"errors"
 	"fmt"
 	"math/rand"
-	"strings"
 	"servitor/ansi"
 	"servitor/style"
+	"strings"
 )
 
 /* style expressions: ["t", text] | ["cat", a, b] | [fn, a] */
